@@ -326,16 +326,12 @@ theorem grammar_binding_powers_small :
     (∀ o ∈ infixBp, o.2.1 < 64 ∧ o.2.2 < 64) ∧ (∀ o ∈ prefixBp, o.2 < 64) ∧ (∀ o ∈ postfixBp, o.2 < 64) := by
   decide +kernel
 
-/-- **The tree contains every token the grammar saw** — for every token list: if the model's call budget did not
-run out (`oof = false`, observed on every input of the tie), the item tree of `file` has at least one `Advance` per
-non-trivia token and the cursor is at the end. *Partial*: (1) `grammar_terminates` (the budget never runs out) is
-not proved — see DESIGN.md, "The parser's grammar functions"; (2) that `flatL` of an item tree resolves to a
-balanced event list with the same number of `Advance`s (`resolve`/`balancedFrom`, i.e. the remaining hypotheses of
-`buildTree_lossless`) is checked on every real and model event list at run time and by the examples below, not
-proved for all item trees (the forward-parent encoding of `wrap` is the missing lemma). -/
-theorem parse_events_cover_tokens_partial (toks : List Nat) (h : (parseItems toks).oof = false) :
+/-- **The tree contains every token the grammar saw** — for every token list the item tree of `file` has at least one
+`Advance` per non-trivia token and the cursor ends at the end (`grammar_terminates` + `grammar_stepOK` +
+`fileItems_ends_at_eof`). -/
+theorem parse_events_cover_tokens (toks : List Nat) :
     toks.length ≤ advsL (parseItems toks).out ∧ (parseItems toks).pos = toks.length :=
-  ⟨(file_consumes_all_tokens_partial toks h).2, (file_consumes_all_tokens_partial toks h).1⟩
+  ⟨(file_consumes_all_tokens toks).2, (file_consumes_all_tokens toks).1⟩
 
 /-- `fn f[T: A](x: T) -> T { match x { P(a, (b, _)) => a } }`: an item with generics and bounds, a match with
 nested patterns (32 tokens) -/
@@ -405,13 +401,12 @@ theorem grammar_events_wellformed (toks : List Nat) :
   obtain ⟨revs, h1, h2, h3⟩ := flat_root_wellformed K_FILE ch hk'
   exact ⟨revs, ch, hch, by rw [parseEvents, hch]; exact h1, h2, h3⟩
 
-/-- … and it has one `Advance` per token, provided the call budget did not run out (`_partial`: the only missing
-lemma is `grammar_terminates`, `(parseItems toks).oof = false` for all `toks`; observed on every input of the tie) -/
-theorem grammar_events_cover_tokens_partial (toks : List Nat) (h : (parseItems toks).oof = false) :
+/-- … and it has at least one `Advance` per token: all structural hypotheses of `buildTree_lossless`, for every token list -/
+theorem grammar_events_cover_tokens (toks : List Nat) :
     ∃ revs, resolve (parseEvents toks) = some revs ∧ balancedFrom 0 revs = true ∧ toks.length ≤ advances revs := by
   obtain ⟨revs, ch, hch, h1, h2, h3⟩ := grammar_events_wellformed toks
   refine ⟨revs, h1, h2, ?_⟩
-  have := (file_consumes_all_tokens_partial toks h).2
+  have := (file_consumes_all_tokens toks).2
   rw [hch] at this
   simp only [advsL, advs, Nat.add_zero] at this
   omega
@@ -420,18 +415,17 @@ theorem grammar_events_cover_tokens_partial (toks : List Nat) (h : (parseItems t
 table, every positive error length and every text: the lexer tiles the text (`lex_tiles`), the grammar model run on the
 kinds of its non-trivia tokens yields events inside the hypotheses of `buildTree_lossless`
 (`grammar_events_wellformed`), hence `build_tree` succeeds, the tree's text is the input, nothing is dropped, and all node
-and diagnostic ranges lie in the text. *Partial in one respect only*: the hypothesis `hb` (the model's call budget does not
-run out on this token list) stands for the unproved `grammar_terminates`; everything else — balance, forward parents,
-advance accounting, recovery paths, fuel corners — is proved for all inputs. -/
-theorem parse_lossless_partial_budget (rules : Rules) (errLen : List Char → Nat → Nat)
-    (h : ∀ s p, 0 < errLen s p) (s : List Char)
-    (hb : ∀ ts, lexAll rules errLen s = .ok ts → (parseItems (kindsOf ts)).oof = false) :
+and diagnostic ranges lie in the text. Unconditional for the modelled grammar: termination (`grammar_terminates`), balance,
+forward parents, advance accounting, recovery paths and fuel corners are all proved; what ties the model to the Rust is the
+event-for-event comparison with `Parser.events` on every run. -/
+theorem parse_lossless (rules : Rules) (errLen : List Char → Nat → Nat)
+    (h : ∀ s p, 0 < errLen s p) (s : List Char) :
     ∃ ts b, lexAll rules errLen s = .ok ts ∧ buildTree (parseEvents (kindsOf ts)) ts = some b ∧
       leaves b.tree = ts ∧ textOf (leaves b.tree) = s ∧ b.dropped = [] ∧
       (∀ x ∈ spans 0 b.tree, x.2.1 ≤ x.2.2 ∧ x.2.2 ≤ byteLen s) ∧
       (∀ d ∈ b.diags, ∀ r, d.range = some r → r.1 ≤ r.2 ∧ r.2 ≤ byteLen s) := by
   obtain ⟨ts, h1, h2, _, _⟩ := lex_tiles rules errLen h s
-  obtain ⟨revs, r1, r2, r3⟩ := grammar_events_cover_tokens_partial (kindsOf ts) (hb ts h1)
+  obtain ⟨revs, r1, r2, r3⟩ := grammar_events_cover_tokens (kindsOf ts)
   obtain ⟨b, b1, b2, b3⟩ := buildTree_lossless (parseEvents (kindsOf ts)) ts revs r1 r2
     (by rw [nonTrivia_eq_kindsOf]; exact r3)
   refine ⟨ts, b, h1, b1, b2, by rw [b2, h2], b3, ?_, ?_⟩
